@@ -89,6 +89,11 @@ def model_sorted(V, st, args, kwargs, node):
     j = z3.Int(fresh_name('sj'))
     st.fact(z3.ForAll([i], z3.Implies(z3.And(i >= 0, i < n), z3.Contains(s, z3.Unit(r.z[i])))))
     st.fact(z3.ForAll([i], z3.Implies(z3.And(i >= 0, i < n), z3.Contains(r.z, z3.Unit(s[i])))))
+    # the same statement with an explicit index witness (sorted() is a permutation): element i of the input sits at
+    # position pos(i) of the result - solvers do not derive an index from seq.contains on their own
+    pos = z3.Function(fresh_name('sorted_pos'), z3.IntSort(), z3.IntSort())
+    st.fact(z3.ForAll([i], z3.Implies(z3.And(i >= 0, i < n),
+                                      z3.And(pos(i) >= 0, pos(i) < n, r.z[pos(i)] == s[i]))))
 
     def k(elem):
         if key is None:
